@@ -698,6 +698,17 @@ func (l *commitLog) checkAndPerformSplit() (bool, error) {
 }
 
 func (l *commitLog) split(oldActiveSegment *segment) error {
+	// Splits are serialized by the log mutex. The appender and the cleaner
+	// loop can find the same full active segment at the same time; if both
+	// created the segment files for the next base offset, the loser of the
+	// swap below would delete (and truncate the memory-mapped index of) the
+	// files the winner's segment is using. So check under the mutex that the
+	// segment is still the active one before anything is created.
+	l.mu.Lock()
+	defer l.mu.Unlock()
+	if l.activeSegment() != oldActiveSegment {
+		return ErrSegmentExists
+	}
 	offset := l.NewestOffset() + 1
 	l.Logger.Debugf("Appending new log segment for %s with base offset %d", l.Path, offset)
 	segment, err := newSegment(l.Path, offset, l.MaxSegmentBytes, true, "")
@@ -712,11 +723,9 @@ func (l *commitLog) split(oldActiveSegment *segment) error {
 	// the high watermark can move into it, so a reader that sees such a high
 	// watermark must also find the segment in the list (and two consecutive
 	// splits must not be listed out of order).
-	l.mu.Lock()
 	if !atomic.CompareAndSwapPointer(
 		(*unsafe.Pointer)(unsafe.Pointer(&l.vActiveSegment)),
 		unsafe.Pointer(oldActiveSegment), unsafe.Pointer(segment)) {
-		l.mu.Unlock()
 		segment.Delete() // nolint: errcheck
 		return ErrSegmentExists
 	}
@@ -724,7 +733,6 @@ func (l *commitLog) split(oldActiveSegment *segment) error {
 	verifGate("split.after_cas")
 	segments := append(l.segments, segment)
 	l.segments = segments
-	l.mu.Unlock()
 	return nil
 }
 
